@@ -108,6 +108,122 @@ fn op_dates(case: &Value) -> Value {
     json!({"ok": true, "dates": out})
 }
 
+fn hex_decode(h: &str) -> Vec<u8> {
+    (0..h.len() / 2)
+        .filter_map(|i| u8::from_str_radix(&h[2 * i..2 * i + 2], 16).ok())
+        .collect()
+}
+fn hex_encode(b: &[u8]) -> String {
+    b.iter().map(|x| format!("{x:02x}")).collect()
+}
+
+/// Every three-letter code iso_currency accepts (the table the parser consults).
+fn op_currencies() -> Value {
+    let mut v = Vec::new();
+    for a in b'A'..=b'Z' {
+        for b in b'A'..=b'Z' {
+            for c in b'A'..=b'Z' {
+                let code = String::from_utf8_lossy(&[a, b, c]).to_string();
+                if cgt_money::Currency::from_code(&code).is_some() {
+                    v.push(code);
+                }
+            }
+        }
+    }
+    json!({"ok": true, "codes": v})
+}
+
+fn show_money(m: &cgt_money::CurrencyAmount) -> String {
+    format!("{}|{}", m.amount, m.code())
+}
+/// Canonical one-line rendering of a transaction (the same format coq/Model/Dsl.v show_txn prints).
+fn show_txn(t: &Transaction) -> String {
+    use cgt_core::Operation as O;
+    let h = |kw: &str| format!("{}|{}|{}", t.date.format("%Y-%m-%d"), t.ticker, kw);
+    match &t.operation {
+        O::Buy { amount, price, fees } => format!("{}|{}|{}|{}", h("BUY"), amount, show_money(price), show_money(fees)),
+        O::Sell { amount, price, fees } => format!("{}|{}|{}|{}", h("SELL"), amount, show_money(price), show_money(fees)),
+        O::Dividend { total_value, tax_paid } => format!("{}|{}|{}", h("DIVIDEND"), show_money(total_value), show_money(tax_paid)),
+        O::Accumulation { amount, total_value, tax_paid } => format!("{}|{}|{}|{}", h("ACCUMULATION"), amount, show_money(total_value), show_money(tax_paid)),
+        O::CapReturn { amount, total_value, fees } => format!("{}|{}|{}|{}", h("CAPRETURN"), amount, show_money(total_value), show_money(fees)),
+        O::Split { ratio } => format!("{}|{}", h("SPLIT"), ratio),
+        O::Unsplit { ratio } => format!("{}|{}", h("UNSPLIT"), ratio),
+    }
+}
+
+fn op_parse(case: &Value) -> Value {
+    let bytes = hex_decode(case["text_hex"].as_str().unwrap_or(""));
+    let Ok(text) = String::from_utf8(bytes) else {
+        return json!({"ok": false, "stage": "utf8", "error": "input is not UTF-8"});
+    };
+    match parse_file(&text) {
+        Ok(ts) => json!({"ok": true, "txns": ts.iter().map(show_txn).collect::<Vec<_>>()}),
+        Err(e) => json!({"ok": false, "stage": "parse", "error": e.to_string()}),
+    }
+}
+
+/// Build transactions at the API level from a plain spec (no serde validation, no upper-casing).
+fn build_txns(spec: &Value) -> Result<Vec<Transaction>, String> {
+    use cgt_core::Operation as O;
+    let mut out = Vec::new();
+    for t in spec.as_array().ok_or("spec not an array")? {
+        let g = |k: &str| t.get(k).and_then(|v| v.as_str()).unwrap_or("").to_string();
+        let dec = |k: &str| Decimal::from_str(&g(k)).map_err(|e| format!("{k}: {e}"));
+        let money = |k: &str, c: &str| -> Result<cgt_money::CurrencyAmount, String> {
+            let cur = cgt_money::Currency::from_code(&g(c)).ok_or(format!("currency {}", g(c)))?;
+            Ok(cgt_money::CurrencyAmount::new(dec(k)?, cur))
+        };
+        let date = NaiveDate::parse_from_str(&g("date"), "%Y-%m-%d").map_err(|e| e.to_string())?;
+        let op = match g("kind").as_str() {
+            "BUY" => O::Buy { amount: dec("a")?, price: money("v", "vcur")?, fees: money("x", "xcur")? },
+            "SELL" => O::Sell { amount: dec("a")?, price: money("v", "vcur")?, fees: money("x", "xcur")? },
+            "DIVIDEND" => O::Dividend { total_value: money("v", "vcur")?, tax_paid: money("x", "xcur")? },
+            "ACCUMULATION" => O::Accumulation { amount: dec("a")?, total_value: money("v", "vcur")?, tax_paid: money("x", "xcur")? },
+            "CAPRETURN" => O::CapReturn { amount: dec("a")?, total_value: money("v", "vcur")?, fees: money("x", "xcur")? },
+            "SPLIT" => O::Split { ratio: dec("a")? },
+            "UNSPLIT" => O::Unsplit { ratio: dec("a")? },
+            k => return Err(format!("kind {k}")),
+        };
+        out.push(Transaction { date, ticker: g("tick"), operation: op });
+    }
+    Ok(out)
+}
+
+fn report_sig(ts: &[Transaction], fx: &cgt_money::FxCache) -> Value {
+    match Config::embedded().map_err(|e| e.to_string()).and_then(|c| calculate(ts, None, Some(fx), &c).map_err(|e| e.to_string())) {
+        Ok(r) => json!({"ok": true, "report": jreport(&r)}),
+        Err(e) => json!({"ok": false, "error": e}),
+    }
+}
+
+/// API-level transactions -> DSL text -> parse; -> JSON -> parse; writing twice; reports of all three.
+fn op_roundtrip(case: &Value, fx: &cgt_money::FxCache) -> Value {
+    let ts = match build_txns(&case["txns"]) {
+        Ok(t) => t,
+        Err(e) => return json!({"ok": false, "stage": "build", "error": e}),
+    };
+    let dsl = cgt_core::dsl::transactions_to_dsl(&ts);
+    let back = parse_file(&dsl);
+    let (dsl_back, dsl2) = match &back {
+        Ok(b) => (json!({"ok": true, "txns": b.iter().map(show_txn).collect::<Vec<_>>()}), Some(cgt_core::dsl::transactions_to_dsl(b))),
+        Err(e) => (json!({"ok": false, "error": e.to_string()}), None),
+    };
+    let js = serde_json::to_string(&ts);
+    let json_back = match &js {
+        Ok(j) => match serde_json::from_str::<Vec<Transaction>>(j) {
+            Ok(b) => json!({"ok": true, "txns": b.iter().map(show_txn).collect::<Vec<_>>(), "equal": b == ts,
+                            "report": if case.get("reports").and_then(|v| v.as_bool()).unwrap_or(false) { report_sig(&b, fx) } else { Value::Null }}),
+            Err(e) => json!({"ok": false, "error": e.to_string()}),
+        },
+        Err(e) => json!({"ok": false, "error": e.to_string()}),
+    };
+    let want_reports = case.get("reports").and_then(|v| v.as_bool()).unwrap_or(false);
+    json!({"ok": true, "orig": ts.iter().map(show_txn).collect::<Vec<_>>(), "dsl_hex": hex_encode(dsl.as_bytes()),
+           "dsl_back": dsl_back, "dsl_twice_equal": dsl2.as_ref().map(|d| d == &dsl), "json_back": json_back,
+           "report_orig": if want_reports { report_sig(&ts, fx) } else { Value::Null },
+           "report_dsl": if want_reports { back.as_ref().map(|b| report_sig(b, fx)).unwrap_or(Value::Null) } else { Value::Null }})
+}
+
 /// The embedded exemption table, so that both sides are given the code's own data.
 fn op_config() -> Value {
     match Config::embedded() {
@@ -146,6 +262,9 @@ fn main() {
             "report" => op_report(&case, &fx),
             "dates" => op_dates(&case),
             "config" => op_config(),
+            "currencies" => op_currencies(),
+            "parse" => op_parse(&case),
+            "roundtrip" => op_roundtrip(&case, &fx),
             _ => json!({"ok": false, "stage": "harness", "error": format!("unknown op {op}")}),
         }));
         let mut v = match res {
